@@ -121,8 +121,10 @@ CLAIMED = {
               "<= 28, day of year <= 360) without time fields (C20_day_least) or with an hour and optional minute/second (C20_day_time_least): "
               "the result is the least match, valid, in the point's offset (and idempotent); T24 runs to the loop bound and the hour-less "
               "day+minute target is not least (refuted statements = known findings F8b, F10)."),
-        note=("Least-ness for week+weekday designators, days 29-31 / 361-366, and for truncated points with their own zone is decided by the correspondence + Spec oracle only; "
-              "fractional hour/minute forms of the full point are the float regime (known finding F11)."),
+        note=("Props/C20Ext.v extends this to week+weekday (week 53 included; 52 in the 360-day calendar, the constructor's own bound since fix F15), day of month "
+              "29-31, day of year 361-366, truncated points carrying their own UTC offset (fields read in that offset) and both operand orders: no hang within the "
+              "proven loop bounds, valid, least match, idempotent. Props/C20Tables.v ties the week bound to the set_mode expression translated from the source. "
+              "Fractional hour/minute forms of the full point are the float regime (known finding F11)."),
         technique="Coq proof (loop invariants for unit stepping; specification proved least) + correspondence with per-call timeout + Spec oracle",
         design="7 C20"),
     "C10": dict(
@@ -165,7 +167,9 @@ CLAIMED = {
               "probe's instant is start + i*len for an index in range (and the scan answers given enough fuel); r[i] is the i-th point; "
               "get_next/get_prev give the adjacent instant or None past the ends; get_first_after (whole-second interval and probe) is the "
               "earliest later member, the first member before the series, None past a bounded end."),
-        note="Scans carry explicit fuel in the model (3000 in the correspondence); month/year intervals are covered by the correspondence and oracle only.",
+        note=("Props/C13Ext.v adds the reverse (duration/end, unbounded) series in closed form and, for any stepping interval incl. months/years, the queries against "
+              "iteration itself (get_is_valid <-> some iterated point at that instant; r[i]; get_next/get_prev in the direction of iteration; the scanning "
+              "get_first_after). Scans carry explicit fuel in the model (3000 in the correspondence)."),
         technique="Coq proof on top of C12 + correspondence with probes re-zoned/re-expressed by the implementation + oracle from iteration",
         design="7 C13"),
     "C14": dict(
@@ -173,8 +177,10 @@ CLAIMED = {
               "spelling), so every iterated point moves by exactly len x; (r + x) - x == r; == is component-wise; equal exact recurrences "
               "iterate the same instants. Correspondence incl. single-point recurrences of all notations, either operand order, crafted "
               "unequal/equal pairs, and the str/parse round trip (implementation-side oracle only)."),
-        note="The text round trip is checked on the implementation only (no recurrence parser model yet); hashes are checked for == implies equal hash on the implementation.",
-        technique="Coq proof (10-shape constructor inversion) + correspondence + implementation-side round-trip oracle",
+        note=("Props/C14Text.v: equal recurrences hash equivalent tuples (any interval); explicit text of str; parse(str r) exists, == r and iterates the same points "
+              "for every parser-producible recurrence (any mode, any local offset, all notations, exact/nominal/week/zero intervals; counts below 10^4300, where str "
+              "itself raises). The text, the re-parsed recurrence and the hashed tuple are compared with the implementation on every text case."),
+        technique="Coq proof (10-shape constructor inversion; congruence of rec_make/iteration under respelling) + correspondence + round-trip oracle",
         design="7 C14"),
     "C15": dict(
         text=("Theorems (Props/C15.v): the process-wide mode and the lru_cache'd helpers as a state machine (state = spelling last set + cache as a finite "
